@@ -134,8 +134,16 @@ def a_expected(kind, d, bodies):
     return contents, text, 2, srcs
 
 
+def caret_artifact(kind, d, body):
+    """\\verb^^... : the two carets directly after the control word form a ^^X sequence that TeX (and plasTeX) decode
+    while the name \\verb is being scanned, before the macro runs -- outside the scope of the statement"""
+    return kind in ('verb', 'verb*') and d == '^' and (body == '' or body.startswith('^')) and kind == 'verb'
+
+
 def a_judge(kind, d, body):
     """-> (verdict, fid, expected, observed, detail) for a single body (document with one unit)"""
+    if caret_artifact(kind, d, body):
+        return 'ok', None, None, None, 'outside the alphabet (^^X after the control word)'
     exp = a_expected(kind, d, [body])
     obs = a_observe(kind, d, [body])
     if obs == exp:
@@ -189,6 +197,8 @@ def a_bodies(block):
             body = pre + ''.join([syms[k] for k in tail])
             if mustsyms is not None and mustsyms[0] not in body and mustsyms[1] not in body:
                 continue
+            if caret_artifact(kind, d, body):
+                continue
             yield tup, body, syms, full_end
 
 
@@ -216,7 +226,8 @@ def a_run_block(block):
                 if rep.nviolations >= ABANDON:
                     break
                 v, fid, e, o, detail = a_judge(kind, d, b)
-                rep.case(key=(kind, d, b), nontrivial=True, outcome=(kind, d, repr(o)))
+                rep.case(key=(kind, d, b), nontrivial=len(b) > 0 or v != 'ok',
+                         outcome=(kind, b) if v == 'ok' else (kind, d, repr(o)))
                 case = {'part': 'a', 'kind': kind, 'd': d, 'body': b}
                 if v == 'ok':
                     rep.count('a_single_ok_after_batch_mismatch')
@@ -524,7 +535,7 @@ def b_run_block(block):
     def single(t):
         v, fids, e, o, detail = b_judge(ctx, t)
         rep.count('b_single_documents')
-        record(t, v, fids, e, o, detail, (ctx, repr(o)))
+        record(t, v, fids, e, o, detail, (ctx, tuple(o[0][0][0])) if v == 'ok' else (ctx, repr(o)))
 
     def run(batch, bisect):
         if not batch or rep.nviolations >= ABANDON:
